@@ -668,6 +668,50 @@ def _run(ctx, pool, root0, dtasks):
             ctx.diverge('crash-replay:forked-child-vs-fresh-interpreter', {'job': list(metaB[bi])}, str(a[-2:])[:300], str(b[-2:])[:300])
     ctx.notes['scenarios'] = len(scen)
     ctx.notes['crash_jobs'] = len(jobsB)
+    memory_retry_probe(ctx)
+
+
+def memory_retry_probe(ctx):
+    """a result is visible only when complete — also for a task that keeps its result in memory: after a run that raised, the next request
+    on the SAME task object runs it again; nothing of the failed attempt (an empty data object) is handed to its dependants"""
+    from taskchain import Task, Config, InMemoryData
+    root = ctx.tmpdir() / 'memretry'
+    state = {'fail': True, 'runs': 0}
+
+    class Mem(Task):
+        class Meta:
+            name = 'mem'
+            data_class = InMemoryData
+
+        def run(self) -> dict:
+            state['runs'] += 1
+            if state['fail']:
+                raise RuntimeError('first attempt fails')
+            return {'ok': state['runs']}
+
+    class Down(Task):
+        class Meta:
+            name = 'down'
+            input_tasks = [Mem]
+
+        def run(self, mem) -> dict:
+            return {'got': mem}
+    for k in range(ctx.n(2, 6)):
+        state.update(fail=True, runs=0)
+        ch = Config(root / f'd{k}', name='c', data={'tasks': [Mem, Down]}).chain()
+        case = {'probe': 'in-memory task whose first run raises', 'round': k}
+        ctx.case(case); ctx.count('memory-retry-probe')
+        try:
+            _ = ch['down'].value if k % 2 else ch['mem'].value
+        except RuntimeError:
+            pass
+        state['fail'] = False
+        try:
+            got = ch['down'].value
+        except Exception as e:      # noqa
+            ctx.fail('a request after a failed run of an in-memory task fails although the task now succeeds', case, f'{type(e).__name__}: {e}'[:160]); continue
+        if got != {'got': {'ok': 2}}:
+            ctx.fail('a dependant was handed something else than the result of a complete run of its in-memory input', case, {'value': repr(got)[:200], 'runs': state['runs']})
 
 
 def search(ctx, divergences):
